@@ -42,10 +42,10 @@ func (ld *loader) FindHandlerByType(string) (string, any, error) {
 	return "", nil, blobserver.ErrHandlerTypeNotFound
 }
 func (ld *loader) AllHandlers() (map[string]string, map[string]any) { return nil, nil }
-func (ld *loader) MyPrefix() string                                   { return "/r/" }
-func (ld *loader) BaseURL() string                                    { return "" }
-func (ld *loader) GetHandlerType(string) string                       { return "" }
-func (ld *loader) GetHandler(p string) (any, error)                   { return ld.GetStorage(p) }
+func (ld *loader) MyPrefix() string                                 { return "/r/" }
+func (ld *loader) BaseURL() string                                  { return "" }
+func (ld *loader) GetHandlerType(string) string                     { return "" }
+func (ld *loader) GetHandler(p string) (any, error)                 { return ld.GetStorage(p) }
 func (ld *loader) GetStorage(p string) (blobserver.Storage, error) {
 	if s, ok := ld.m[p]; ok {
 		return s, nil
@@ -53,8 +53,8 @@ func (ld *loader) GetStorage(p string) (blobserver.Storage, error) {
 	return nil, fmt.Errorf("no storage %q", p)
 }
 
-var behNames = []string{"ok", "error", "stored-but-error", "wrong-size"}
-var behs = []vstore.Behaviour{vstore.OK, vstore.Fail, vstore.FailAfter, vstore.WrongSize}
+var behNames = []string{"ok", "error", "stored-but-error", "wrong-size", "nothing-stored-size-0-no-error"}
+var behs = []vstore.Behaviour{vstore.OK, vstore.Fail, vstore.FailAfter, vstore.WrongSize, vstore.ZeroSize}
 
 // settle is how long the harness waits to see an (illegal) early acknowledgement.
 // A longer wait only makes the check more sensitive; it can never cause a false alarm.
@@ -65,6 +65,11 @@ type writeCase struct {
 	Min   int   `json:"minWritesForSuccess"`
 	Beh   []int `json:"behaviour_per_replica"`
 	Order []int `json:"release_order"`
+	// configuration shape (TestQuorumConfigShapes): minWritesForSuccess left out (documented default: all
+	// write replicas; Min is then N), a separate readBackends list of NRead stores, shape of the replicas' errors
+	MinUnset bool `json:"minWritesForSuccess_unset,omitempty"`
+	NRead    int  `json:"readBackends,omitempty"`
+	ErrKind  int  `json:"error_kind,omitempty"`
 }
 
 func (c writeCase) String() string {
@@ -72,11 +77,25 @@ func (c writeCase) String() string {
 	for _, x := range c.Beh {
 		b = append(b, behNames[x])
 	}
-	return fmt.Sprintf("n=%d min=%d behaviours=[%s] releaseOrder=%v", c.N, c.Min, strings.Join(b, ","), c.Order)
+	cfg := ""
+	if c.MinUnset {
+		cfg += " (minWritesForSuccess not configured)"
+	}
+	if c.NRead > 0 {
+		cfg += fmt.Sprintf(" readBackends=%d", c.NRead)
+	}
+	if c.ErrKind != 0 {
+		cfg += fmt.Sprintf(" errorKind=%d", c.ErrKind)
+	}
+	return fmt.Sprintf("n=%d min=%d%s behaviours=[%s] releaseOrder=%v", c.N, c.Min, cfg, strings.Join(b, ","), c.Order)
 }
 
 func runWriteCase(c writeCase) error {
 	env := vstore.NewEnv()
+	env.ErrKind = c.ErrKind
+	if c.MinUnset {
+		c.Min = c.N
+	}
 	ld := &loader{m: map[string]blobserver.Storage{}}
 	gates := map[string]chan struct{}{}
 	var backends []any
@@ -113,7 +132,20 @@ func runWriteCase(c writeCase) error {
 			doneMu.Unlock()
 		}
 	}
-	sto, err := blobserver.CreateStorage("replica", ld, jsonconfig.Obj{"backends": backends, "minWritesForSuccess": float64(c.Min)})
+	conf := jsonconfig.Obj{"backends": backends}
+	if !c.MinUnset {
+		conf["minWritesForSuccess"] = float64(c.Min)
+	}
+	if c.NRead > 0 {
+		var rb []any
+		for i := 0; i < c.NRead; i++ {
+			name := fmt.Sprintf("r%d", i)
+			ld.m["/"+name+"/"] = env.NewStore(name)
+			rb = append(rb, "/"+name+"/")
+		}
+		conf["readBackends"] = rb
+	}
+	sto, err := blobserver.CreateStorage("replica", ld, conf)
 	if err != nil {
 		return fmt.Errorf("harness: create replica: %v", err)
 	}
@@ -323,7 +355,54 @@ func TestQuorumExhaustive(t *testing.T) {
 			}
 		}
 	}
-	evid.R.Exhaustive(fmt.Sprintf("all (n<=%d, min<=n, 4 behaviours per replica, all release orders)", maxN))
+	evid.R.Exhaustive(fmt.Sprintf("all (n<=%d, min<=n, %d behaviours per replica, all release orders)", maxN, len(behs)))
+}
+
+// TestQuorumConfigShapes: the same write oracle over generated configuration shapes the exhaustive
+// enumeration keeps fixed: minWritesForSuccess left to its documented default (all write replicas),
+// a separate readBackends list shorter or longer than the write list, and replicas whose errors look
+// like their own timeouts or cancellations.
+func TestQuorumConfigShapes(t *testing.T) {
+	evid.Check(t, 400, 3000, func(t *rapid.T) {
+		n := rapid.IntRange(1, 4).Draw(t, "writeReplicas")
+		c := writeCase{N: n}
+		c.MinUnset = rapid.Bool().Draw(t, "minUnset")
+		c.Min = n
+		if !c.MinUnset {
+			c.Min = rapid.IntRange(1, n).Draw(t, "min")
+		}
+		c.NRead = rapid.SampledFrom([]int{0, 1, 2, 3, 5}).Draw(t, "readBackends")
+		c.ErrKind = rapid.IntRange(0, vstore.NumErrKinds-1).Draw(t, "errKind")
+		ok := 0
+		for i := 0; i < n; i++ {
+			b := rapid.SampledFrom([]int{0, 0, 0, 1, 2, 3, 4}).Draw(t, "behaviour")
+			c.Beh = append(c.Beh, b)
+			if b == 0 {
+				ok++
+			}
+		}
+		idx := make([]int, n)
+		for i := range idx {
+			idx[i] = i
+		}
+		c.Order = rapid.Permutation(idx).Draw(t, "releaseOrder")
+		evid.R.Eval()
+		evid.R.Label("write-config/" + map[bool]string{true: "min-unset", false: "min-set"}[c.MinUnset] + fmt.Sprintf("/readBackends-%s", map[bool]string{true: "none", false: map[bool]string{true: "fewer-than-write", false: "as-many-or-more"}[c.NRead < n]}[c.NRead == 0]))
+		evid.R.Label(fmt.Sprintf("write-config/error-kind-%d", c.ErrKind))
+		nt := ok < n && (c.MinUnset || c.NRead > 0 && c.NRead != n)
+		if nt {
+			evid.R.NonTrivial(evid.Hash("wc", c.String()))
+		}
+		if evid.R.WantSample(nt) {
+			evid.R.Sample(nt, map[string]any{"kind": "write-quorum-config", "case": c, "text": c.String()})
+		}
+		if err := runWriteCase(c); err != nil {
+			if strings.HasPrefix(err.Error(), "VERIF-INCONCLUSIVE:") || strings.HasPrefix(err.Error(), "harness:") {
+				t.Fatalf("%v (case %s)", err, c)
+			}
+			t.Fatalf("C12 violated: %v\ncase: %s", err, c)
+		}
+	})
 }
 
 // ---------------------------------------------------------------------------
@@ -333,6 +412,8 @@ func TestReadsSurviveReplicaLoss(t *testing.T) {
 	evid.Check(t, 1500, 8000, func(t *rapid.T) {
 		env := vstore.NewEnv()
 		ld := &loader{m: map[string]blobserver.Storage{}}
+		env.ErrKind = rapid.IntRange(0, vstore.NumErrKinds-1).Draw(t, "errKind")
+		evid.R.Label(fmt.Sprintf("read/error-kind-%d", env.ErrKind))
 		nw := rapid.IntRange(1, 3).Draw(t, "writeReplicas")
 		distinct := rapid.Bool().Draw(t, "distinctReadSet")
 		nr := nw
